@@ -223,6 +223,14 @@ func (e *Exec) branch(fr *frame, cond *Term) bool {
 		e.assertPC(c.Not(cond))
 		return false
 	}
+	if e.mergeDepth > 0 {
+		// merge mode: no solver; follow both sides syntactically
+		sib := append(append([]int64{}, e.decisions...), 0)
+		e.push(sib)
+		e.recordDecision(1, false)
+		e.assertPC(cond)
+		return true
+	}
 	e.symDecs++
 	st := &e.eng.stats
 	r1 := e.checkWith(cond)
@@ -289,6 +297,9 @@ func (e *Exec) concretize(fr *frame, t *Term, what string) int64 {
 	}
 	if e.templateMode {
 		e.unsupported(fr, "symbolic %s during package initialisation", what)
+	}
+	if e.mergeDepth > 0 {
+		e.abort("nomerge", "concretisation inside merged call")
 	}
 	c := e.ctx
 	di := len(e.decisions)
